@@ -1249,13 +1249,7 @@ impl<'a, S: Source + 'a> Constructed<'a, S> {
     /// If there is a next value, returns `Ok(Some(()))`, if the end of value
     /// has already been reached, returns `Ok(None)`.
     pub fn skip_one(&mut self) -> Result<Option<()>, DecodeError<S::Error>> {
-        if self.is_exhausted() {
-            Ok(None)
-        }
-        else {
-            self.skip(|_, _, _| Ok(()))?;
-            Ok(Some(()))
-        }
+        self.skip_opt(|_, _, _| Ok(()))
     }
 }
 
